@@ -31,12 +31,26 @@
 (*              trackers with the public identity                          *)
 (*   "magnetgone" Magnet() through a handle that outlives the torrent      *)
 (*              (RemoveTorrent, Session.Close) exports a private torrent   *)
+(*   "pendinglate" the pending DHT request is dropped only when the torrent *)
+(*              reaches Stopped, not when it stops: it survives the        *)
+(*              Stopping state (the "stopped" event is on its way to a     *)
+(*              tracker that is slow to answer)                            *)
+(*   "sharedtracker" tracker objects are shared by the torrents of the     *)
+(*              session that announce to the same URL: the identity is the *)
+(*              one the FIRST torrent created the object with              *)
 (*                                                                         *)
 (* Life cycle: Reload = the session is closed and a new session loads the  *)
 (* torrent from its resume record (restart, or move to another session):   *)
 (* the trackers are created anew, with the identity the loader derives     *)
 (* from the record.  Gone = the torrent was removed or its session closed  *)
 (* while the user still holds the handle: only Magnet() can be called.     *)
+(* Stopping = the torrent has stopped (announcers, peers, queue gone) and  *)
+(* sends the "stopped" event to the trackers that had answered; it reaches *)
+(* Stopped when they have answered or tracker-stop-timeout has passed      *)
+(* (environment: a tracker that is slow to answer keeps it there).         *)
+(* Co-tenant = another torrent of the same session (a public torrent or a  *)
+(* magnet link) that announces to the same tracker URL and was added       *)
+(* before this torrent's trackers were created.                            *)
 (***************************************************************************)
 EXTENDS Integers, FiniteSets, Sequences, TLC
 
@@ -46,6 +60,7 @@ CONSTANTS MaxHist,   \* bound on environment events in one behaviour
 VARIABLES cfg,        \* [priv, dht, pex, sibling : BOOLEAN, mode : {"file","magnet"}]   (constant per behaviour)
           info,       \* "none" (magnet, metadata unknown) | "known" | "refused"
           running,
+          stopping,   \* the torrent has stopped and is sending the "stopped" event to its trackers (status Stopping)
           conn,       \* connected peers, named by how we met them: SUBSET Kind
           pexOn,      \* peers for which the PEX sender runs
           queue,      \* sources that have an address waiting in the candidate queue
@@ -60,9 +75,10 @@ VARIABLES cfg,        \* [priv, dht, pex, sibling : BOOLEAN, mode : {"file","mag
           hist,
           life        \* [bf : the resume record holds a bitfield (allocation / verification finished once),
                       \*  ident : identity class the torrent's trackers were created with ("private" | "public"),
-                      \*  gone : the torrent was removed / its session closed, the handle lives on]
+                      \*  gone : the torrent was removed / its session closed, the handle lives on,
+                      \*  co : a co-tenant (another torrent of the session announcing to the same URL) exists]
 
-vars == <<cfg, info, running, conn, pexOn, queue, dialled, dhtAnn, dhtPending, asked, sibAsked, nodes, magnetRes, leak, hist, life>>
+vars == <<cfg, info, running, stopping, conn, pexOn, queue, dialled, dhtAnn, dhtPending, asked, sibAsked, nodes, magnetRes, leak, hist, life>>
 
 Source == {"tracker", "manual", "dht", "pex"}
 Kind == Source \cup {"incoming"}
@@ -83,15 +99,18 @@ IsPriv == info = "known" /\ cfg.priv
 \* ... or has learned it from the metadata it refused
 Restricted == IsPriv \/ info = "refused"
 
-InitWith(c) ==
-    /\ cfg = c
+InitWith2(c, co) ==
+    /\ cfg = c /\ stopping = FALSE
     /\ info = IF c.mode = "file" THEN "known" ELSE "none"
     /\ running = FALSE /\ conn = {} /\ pexOn = {} /\ queue = {} /\ dialled = {}
     /\ dhtAnn = FALSE /\ dhtPending = FALSE /\ asked = FALSE /\ sibAsked = FALSE /\ nodes = FALSE
     /\ magnetRes = "none" /\ leak = {} /\ hist = 0
-    /\ life = [bf |-> FALSE, ident |-> IF c.mode = "file" /\ c.priv THEN "private" ELSE "public", gone |-> FALSE]
+    \* @obligation C19.identity  the trackers of a private torrent are created with the private identity whatever other torrents
+    \* of the session announce to the same URL
+    /\ life = [bf |-> FALSE, ident |-> IF c.mode = "file" /\ c.priv /\ ~(co /\ "sharedtracker" \in AsIs) THEN "private" ELSE "public", gone |-> FALSE, co |-> co]
+InitWith(c) == InitWith2(c, FALSE)
 
-Init == \E c \in Cfgs : InitWith(c)
+Init == \E c \in Cfgs, co \in BOOLEAN : InitWith2(c, co)
 
 \* ---------------------------------------------------------------------------
 \* effects (every operator fixes all variables except hist)
@@ -99,22 +118,32 @@ Init == \E c \in Cfgs : InitWith(c)
 \* @obligation C19.dht  startAnnouncers: DHT announcer only when the torrent is not known to be private
 DoStart ==
     /\ ~running
-    /\ running' = TRUE
+    /\ running' = TRUE /\ stopping' = FALSE        \* a start in Stopping state completes the stop first (handleStopped)
     /\ info' = IF info = "refused" THEN "none" ELSE info
     /\ LET ann == cfg.dht /\ (~IsPriv \/ "dhtstart" \in AsIs)
        IN /\ dhtAnn' = ann
           /\ dhtPending' = (dhtPending \/ ann)          \* the announcer announces at once
     /\ UNCHANGED <<cfg, conn, pexOn, queue, dialled, asked, sibAsked, nodes, magnetRes, leak, life>>
 
-StopEffects ==
-    /\ running' = FALSE /\ conn' = {} /\ pexOn' = {} /\ queue' = {} /\ dhtAnn' = FALSE
-    \* @obligation C19.metadata  a stopped torrent is not announced to the DHT any more
-    /\ dhtPending' = IF "pending" \in AsIs THEN dhtPending ELSE FALSE
+StopEffectsTo(st) ==
+    /\ running' = FALSE /\ stopping' = st /\ conn' = {} /\ pexOn' = {} /\ queue' = {} /\ dhtAnn' = FALSE
+    \* @obligation C19.metadata  a stopped torrent is not announced to the DHT any more: the pending request goes when the
+    \* torrent stops, not when the trackers have answered the "stopped" event
+    /\ dhtPending' = IF "pending" \in AsIs \/ (st /\ "pendinglate" \in AsIs) THEN dhtPending ELSE FALSE
+StopEffects == StopEffectsTo(FALSE)      \* close / removal / reload: no Stopping state
 
-DoStop ==
+\* st = TRUE: the torrent enters Stopping (DoStopped follows); FALSE: seen as one step (trace lines logged when Stopped was reached)
+DoStopTo(st) ==
     /\ running
-    /\ StopEffects
+    /\ StopEffectsTo(st)
     /\ UNCHANGED <<cfg, info, dialled, asked, sibAsked, nodes, magnetRes, leak, life>>
+DoStop == DoStopTo(TRUE)
+
+\* the trackers answered the "stopped" event, or tracker-stop-timeout passed: handleStopped
+DoStopped ==
+    /\ stopping /\ stopping' = FALSE
+    /\ dhtPending' = IF "pending" \in AsIs THEN dhtPending ELSE FALSE
+    /\ UNCHANGED <<cfg, info, running, conn, pexOn, queue, dialled, dhtAnn, asked, sibAsked, nodes, magnetRes, leak, life>>
 
 \* @obligation C19.sources  handleNewPeers: a private torrent admits tracker and manual addresses only
 Admit(src) ==
@@ -127,11 +156,11 @@ NewPeers(src) == queue' = IF running /\ Admit(src) THEN queue \cup {src} ELSE qu
 
 DoTrackerPeers ==
     /\ NewPeers("tracker")
-    /\ UNCHANGED <<cfg, info, running, conn, pexOn, dialled, dhtAnn, dhtPending, asked, sibAsked, nodes, magnetRes, leak, life>>
+    /\ UNCHANGED <<cfg, info, running, stopping, conn, pexOn, dialled, dhtAnn, dhtPending, asked, sibAsked, nodes, magnetRes, leak, life>>
 
 DoAddPeer ==
     /\ NewPeers("manual")
-    /\ UNCHANGED <<cfg, info, running, conn, pexOn, dialled, dhtAnn, dhtPending, asked, sibAsked, nodes, magnetRes, leak, life>>
+    /\ UNCHANGED <<cfg, info, running, stopping, conn, pexOn, dialled, dhtAnn, dhtPending, asked, sibAsked, nodes, magnetRes, leak, life>>
 
 LeakOfDial(s) == IF Restricted /\ s \notin Allowed THEN {"dial." \o s} ELSE {}
 
@@ -139,53 +168,53 @@ DoDial(s) ==
     /\ running /\ s \in queue
     /\ queue' = queue \ {s} /\ dialled' = dialled \cup {s} /\ conn' = conn \cup {s}
     /\ leak' = leak \cup LeakOfDial(s)
-    /\ UNCHANGED <<cfg, info, running, pexOn, dhtAnn, dhtPending, asked, sibAsked, nodes, magnetRes, life>>
+    /\ UNCHANGED <<cfg, info, running, stopping, pexOn, dhtAnn, dhtPending, asked, sibAsked, nodes, magnetRes, life>>
 
 DoIncoming ==
     /\ running
     /\ conn' = conn \cup {"incoming"}
-    /\ UNCHANGED <<cfg, info, running, pexOn, queue, dialled, dhtAnn, dhtPending, asked, sibAsked, nodes, magnetRes, leak, life>>
+    /\ UNCHANGED <<cfg, info, running, stopping, pexOn, queue, dialled, dhtAnn, dhtPending, asked, sibAsked, nodes, magnetRes, leak, life>>
 
 \* @obligation C19.pex.sent  extension handshake handler: the PEX sender starts only for a torrent known to be public
 DoExtHs(p) ==
     /\ p \in conn
     /\ pexOn' = IF cfg.pex /\ info = "known" /\ (~cfg.priv \/ "pexsend" \in AsIs) THEN pexOn \cup {p} ELSE pexOn
-    /\ UNCHANGED <<cfg, info, running, conn, queue, dialled, dhtAnn, dhtPending, asked, sibAsked, nodes, magnetRes, leak, life>>
+    /\ UNCHANGED <<cfg, info, running, stopping, conn, queue, dialled, dhtAnn, dhtPending, asked, sibAsked, nodes, magnetRes, leak, life>>
 
 DoPexFlush(p) ==         \* a ut_pex message leaves
     /\ p \in pexOn
     /\ leak' = leak \cup (IF Restricted THEN {"pex.sent"} ELSE {})
-    /\ UNCHANGED <<cfg, info, running, conn, pexOn, queue, dialled, dhtAnn, dhtPending, asked, sibAsked, nodes, magnetRes, life>>
+    /\ UNCHANGED <<cfg, info, running, stopping, conn, pexOn, queue, dialled, dhtAnn, dhtPending, asked, sibAsked, nodes, magnetRes, life>>
 
 \* @obligation C19.pex.acted  incoming PEX message: ignored unless PEX is enabled AND the torrent is not private
 DoPexMsg(p) ==
     /\ p \in conn
     /\ IF cfg.pex THEN NewPeers("pex") ELSE UNCHANGED queue
-    /\ UNCHANGED <<cfg, info, running, conn, pexOn, dialled, dhtAnn, dhtPending, asked, sibAsked, nodes, magnetRes, leak, life>>
+    /\ UNCHANGED <<cfg, info, running, stopping, conn, pexOn, dialled, dhtAnn, dhtPending, asked, sibAsked, nodes, magnetRes, leak, life>>
 
 DoPortMsg(p) ==          \* dht.AddNode: a node of the routing table, nothing about the torrent
     /\ p \in conn
     /\ nodes' = (nodes \/ cfg.dht)
-    /\ UNCHANGED <<cfg, info, running, conn, pexOn, queue, dialled, dhtAnn, dhtPending, asked, sibAsked, magnetRes, leak, life>>
+    /\ UNCHANGED <<cfg, info, running, stopping, conn, pexOn, queue, dialled, dhtAnn, dhtPending, asked, sibAsked, magnetRes, leak, life>>
 
 DoDhtAnnounce ==         \* announcer timer: torrent.announceDHT
     /\ dhtAnn /\ dhtPending' = TRUE
-    /\ UNCHANGED <<cfg, info, running, conn, pexOn, queue, dialled, dhtAnn, asked, sibAsked, nodes, magnetRes, leak, life>>
+    /\ UNCHANGED <<cfg, info, running, stopping, conn, pexOn, queue, dialled, dhtAnn, asked, sibAsked, nodes, magnetRes, leak, life>>
 
 DoDhtTick ==             \* session tick: PeersRequestPort(info-hash, announce, port)
     /\ dhtPending /\ dhtPending' = FALSE /\ asked' = TRUE
     /\ leak' = leak \cup (IF Restricted THEN {"dht.ask"} ELSE {})
-    /\ UNCHANGED <<cfg, info, running, conn, pexOn, queue, dialled, dhtAnn, sibAsked, nodes, magnetRes, life>>
+    /\ UNCHANGED <<cfg, info, running, stopping, conn, pexOn, queue, dialled, dhtAnn, sibAsked, nodes, magnetRes, life>>
 
 DoSiblingAsk ==
     /\ cfg.sibling /\ cfg.dht /\ sibAsked' = TRUE
-    /\ UNCHANGED <<cfg, info, running, conn, pexOn, queue, dialled, dhtAnn, dhtPending, asked, nodes, magnetRes, leak, life>>
+    /\ UNCHANGED <<cfg, info, running, stopping, conn, pexOn, queue, dialled, dhtAnn, dhtPending, asked, nodes, magnetRes, leak, life>>
 
 \* @obligation C19.dht  DHT results never feed a private torrent, whoever asked for the info-hash
 DoDhtPeers ==
     /\ asked \/ sibAsked
     /\ NewPeers("dht")
-    /\ UNCHANGED <<cfg, info, running, conn, pexOn, dialled, dhtAnn, dhtPending, asked, sibAsked, nodes, magnetRes, leak, life>>
+    /\ UNCHANGED <<cfg, info, running, stopping, conn, pexOn, dialled, dhtAnn, dhtPending, asked, sibAsked, nodes, magnetRes, leak, life>>
 
 \* @obligation C19.metadata  metadata from a magnet link that is marked private is refused: the torrent stops
 DoMetadata(adopt) ==
@@ -193,15 +222,15 @@ DoMetadata(adopt) ==
     /\ IF adopt
        THEN /\ info' = "known"
             /\ leak' = leak \cup (IF cfg.priv THEN {"adopted"} ELSE {})
-            /\ UNCHANGED <<running, conn, pexOn, queue, dhtAnn, dhtPending>>
-       ELSE /\ info' = "refused" /\ StopEffects /\ UNCHANGED leak
+            /\ UNCHANGED <<running, stopping, conn, pexOn, queue, dhtAnn, dhtPending>>
+       ELSE /\ info' = "refused" /\ StopEffectsTo(TRUE) /\ UNCHANGED leak
     /\ UNCHANGED <<cfg, dialled, asked, sibAsked, nodes, magnetRes, life>>
 
 \* @obligation C19.magnet  Magnet() errors for a private torrent
 DoMagnet(ok) ==
     /\ magnetRes' = IF ok THEN "ok" ELSE "err"
     /\ leak' = leak \cup (IF IsPriv /\ ok THEN {"magnet.ok"} ELSE {})
-    /\ UNCHANGED <<cfg, info, running, conn, pexOn, queue, dialled, dhtAnn, dhtPending, asked, sibAsked, nodes, life>>
+    /\ UNCHANGED <<cfg, info, running, stopping, conn, pexOn, queue, dialled, dhtAnn, dhtPending, asked, sibAsked, nodes, life>>
 
 \* @obligation C19.identity  peer-id prefix / extension handshake "v" / HTTP User-Agent
 IdentityClass == IF IsPriv THEN "private" ELSE "public"
@@ -210,7 +239,7 @@ IdentityClass == IF IsPriv THEN "private" ELSE "public"
 DoProgress ==
     /\ running /\ info = "known" /\ ~life.bf
     /\ life' = [life EXCEPT !.bf = TRUE]
-    /\ UNCHANGED <<cfg, info, running, conn, pexOn, queue, dialled, dhtAnn, dhtPending, asked, sibAsked, nodes, magnetRes, leak>>
+    /\ UNCHANGED <<cfg, info, running, stopping, conn, pexOn, queue, dialled, dhtAnn, dhtPending, asked, sibAsked, nodes, magnetRes, leak>>
 
 \* @obligation C19.identity  session_load.go loadExistingTorrent: the torrent is built again from its resume record in EVERY
 \* state of the record (no bitfield yet / partial / complete); its trackers get the private identity iff the recorded info
@@ -218,8 +247,15 @@ DoProgress ==
 DoReload ==
     /\ StopEffects
     /\ info' = IF info = "refused" THEN "none" ELSE info
-    /\ life' = [life EXCEPT !.ident = IF IsPriv /\ (life.bf \/ "loadident" \notin AsIs) THEN "private" ELSE "public"]
+    /\ life' = [life EXCEPT !.ident = IF IsPriv /\ (life.bf \/ "loadident" \notin AsIs) /\ ~(life.co /\ "sharedtracker" \in AsIs)
+                                      THEN "private" ELSE "public"]
     /\ UNCHANGED <<cfg, dialled, asked, sibAsked, nodes, magnetRes, leak>>
+
+\* another torrent (public, or a magnet link) that announces to the same tracker URL is added to the session; it is there when
+\* this torrent's trackers are created the next time (DoReload: the new session loads the torrents in any order)
+DoCoTenant ==
+    /\ ~life.co /\ life' = [life EXCEPT !.co = TRUE]
+    /\ UNCHANGED <<cfg, info, running, stopping, conn, pexOn, queue, dialled, dhtAnn, dhtPending, asked, sibAsked, nodes, magnetRes, leak>>
 
 \* RemoveTorrent / Session.Close while the user keeps the handle: the torrent's loop has ended
 DoGone ==
@@ -237,7 +273,7 @@ Intl(A) == A /\ UNCHANGED hist
 
 Live ==
     \/ Intl(DoStart)
-    \/ Env(DoStop)
+    \/ Env(DoStop) \/ Intl(DoStopped) \/ Env(DoCoTenant)
     \/ Env(DoTrackerPeers) \/ Env(DoAddPeer) \/ Env(DoIncoming)
     \/ \E s \in Source : Intl(DoDial(s))
     \/ \E p \in Kind : Env(DoExtHs(p)) \/ Env(DoPexMsg(p)) \/ Env(DoPortMsg(p)) \/ Intl(DoPexFlush(p))
@@ -258,14 +294,15 @@ InvSources == IsPriv => (queue \cup dialled \cup (conn \ {"incoming"})) \subsete
 InvDht     == IsPriv => ~dhtAnn /\ ~dhtPending /\ ~asked
 InvPex     == IsPriv => pexOn = {}
 InvMagnet  == IsPriv => magnetRes # "ok"
-InvRefused == info = "refused" => ~running /\ ~dhtAnn /\ ~dhtPending /\ queue = {} /\ conn = {}
+InvRefused == info = "refused" => ~running /\ ~dhtAnn /\ ~dhtPending /\ queue = {} /\ conn = {}     \* in Stopping state as well
+InvStopping == stopping => ~running /\ ~dhtAnn /\ queue = {} /\ conn = {} /\ pexOn = {}
 InvAdopt   == (cfg.mode = "magnet" /\ info = "known") => ~cfg.priv
 InvNoLeak  == leak = {}
 InvIdentity == IsPriv => life.ident = "private"
-InvGone    == life.gone => ~running /\ ~dhtAnn /\ ~dhtPending /\ queue = {} /\ conn = {}
+InvGone    == life.gone => ~running /\ ~stopping /\ ~dhtAnn /\ ~dhtPending /\ queue = {} /\ conn = {}
 TypeOK ==
-    /\ cfg \in Cfgs /\ info \in {"none", "known", "refused"} /\ running \in BOOLEAN
+    /\ cfg \in Cfgs /\ info \in {"none", "known", "refused"} /\ running \in BOOLEAN /\ stopping \in BOOLEAN
     /\ conn \subseteq Kind /\ pexOn \subseteq Kind /\ queue \subseteq Source /\ dialled \subseteq Source
     /\ magnetRes \in {"none", "ok", "err"} /\ hist \in 0 .. MaxHist
-    /\ life \in [bf : BOOLEAN, ident : {"private", "public"}, gone : BOOLEAN]
+    /\ life \in [bf : BOOLEAN, ident : {"private", "public"}, gone : BOOLEAN, co : BOOLEAN]
 =============================================================================
